@@ -51,6 +51,18 @@ from rtok import (Tok, tokenize, parse_items, match_close, skip_attrs, attr_cfg_
 
 P = 0x800000000000011000000000000000000000000000000000000000000000001
 REPO = os.environ.get('VERIF_REPO', '/repo')
+import featres
+
+
+def code_features(path, features):
+    """cfg alternatives of a repository file are resolved under the features ITS CRATE receives through the Cargo.toml wiring
+    when the unit's features are selected on the top-level verifier crate (featres.py); the unit's own set drives the spec side"""
+    try:
+        return featres.code_features(REPO, path, features)
+    except AssembleError:
+        raise
+    except Exception as e:
+        raise AssembleError('feature wiring of the workspace could not be resolved: %s' % e)
 
 
 class AssembleError(Exception):
@@ -473,6 +485,7 @@ def build_region(args, body, features, rules_mod=None):
     r.props = [p for p in opts.get('props', '').split(',') if p]
     r.implicit = [p for p in opts.get('implicit', '').split(',') if p]
     cm = opts.get('crate', crate_mod_of(r.file))
+    features = code_features(r.file, features)
     src, rtoks, item = locate(r.file, r.kind, r.key, features)
     r.repo_line0 = rtoks[item.start].line
     e_new = normalize(rtoks, item.start, item.end, features, cm, r.log)
@@ -590,6 +603,7 @@ def build_region(args, body, features, rules_mod=None):
 
 def build_verbatim(args, features):
     path, kind = args[0], args[1]
+    features = code_features(path, features)
     opts = dict(a.split('=', 1) for a in args[3:])
     cm = opts.get('crate', crate_mod_of(path))
     vis = opts.get('vis', '')
@@ -620,6 +634,7 @@ def render(ts):
 
 def build_hexconst(args, features):
     path = args[0]
+    features = code_features(path, features)
     opts = dict(a.split('=', 1) for a in args[2:])
     vis = opts.get('vis', 'pub')
     out = []
@@ -645,6 +660,7 @@ def build_hexvec(args, features):
     """`pub fn NAME() -> Vec<Felt> { vec![Felt::from_hex_unchecked("0x.."), ...] }` -> trusted-by-construction contract
     listing every element, literals parsed from the repository text (body shape checked token by token)."""
     path, name = args[0], args[1]
+    features = code_features(path, features)
     src, rtoks, item = locate(path, 'fn', name, features)
     lo, hi = item.body
     body = [t for t in rtoks[lo + 1:hi]]
@@ -682,6 +698,7 @@ def build_fieldseq(args, features):
     """//@fieldseq <file> <Struct> <field_fn> <seq_fn>: spec functions listing the struct's fields IN DECLARATION ORDER
     (generated from the repository's struct definition on every run: the 'field order' oracle of C13/C19)."""
     path, sname, ffn, sfn = args[0], args[1], args[2], args[3]
+    features = code_features(path, features)
     src, rtoks, item = locate(path, 'struct', sname, features)
     # fields: `pub name : usize ,` at depth 1 of the struct body
     a, b = item.body
@@ -723,6 +740,7 @@ def build_parserconsts(args, features):
     `impl LayoutConstants { pub fn <layout>() -> Self { LayoutConstants { name: number, .. } } }`) as spec constants, re-read on
     every run: an INDEPENDENT copy of the layout's column counts inside the repository, used as the oracle of a cross-check."""
     path, lname = args[0], args[1]
+    features = code_features(path, features)
     src, rtoks, item = locate(path, 'fn', 'LayoutConstants::' + lname, features)
     ts = rtoks[item.start:item.end]
     vals = {}
@@ -738,6 +756,7 @@ def build_parserconsts(args, features):
 
 def build_from_variants(args, features):
     path, ename = args[0], args[1]
+    features = code_features(path, features)
     opts = dict(a.split('=', 1) for a in args[2:])
     cm = opts.get('crate', crate_mod_of(path))
     src, rtoks, item = locate(path, 'enum', ename, features)
